@@ -91,6 +91,17 @@ def replay(c, out, fmt):
         As = frozenset(As) if not isinstance(As, frozenset) else As
         d = func.deriv_at(it, rho, active_set=mask(As)).toarray()
         chk("deriv_at", eq(d, [[v / lamb for v in row] for row in M]))
+    # the residual for a GIVEN active set A: x - P_A(xhat - dt grad L), P_A clips exactly the components in A (identity on the
+    # others, even if they lie outside the box); reference computed densely from the exact gradient of the state
+    lbv = np.array([fv(v) for v in c["box"]["lb"]])
+    ubv = np.array([fv(v) for v in c["box"]["ub"]])
+    pref = np.array(c["xhat"], dtype=float) - dt * np.array(out["Lx"], dtype=float)
+    for As in out["DL"].keys():
+        As = frozenset(As) if not isinstance(As, frozenset) else As
+        m_ = mask(As)
+        xref = x - np.where(m_, np.clip(pref, lbv, ubv), pref)
+        got = func.value_at(it, rho, active_set=m_)
+        chk("value_at.given_active_set", eq(got[:2], xref) and got[2] == out["FLy"] / lamb)
     sfunc = ScaledImplicitFunc(prob, orig, dt)
     chk("scaled_value_at", eq(sfunc.value_at(it, rho), list(out["FLx"]) + [-out["FLy"]]))
     chk("scaled_active_set", eq(sfunc.compute_active_set(it, rho), mask(out["act"])))
